@@ -12,7 +12,7 @@ def run(rep):
     compilerp.strict_parsing_obligations(rep)
     q = rep.tier == 'quick'
     if os.path.exists(os.path.join(fw.VERIF, 'standin', 's_c19.py')):
-        fw.standin(rep, 's_c19.py', ['run', rep.seed, 120 if q else 2000],
+        fw.standin(rep, 's_c19.py', ['run', rep.seed, 400 if q else 3000],
                    'CLI vs library: programs (incl. embedded newlines, non-ASCII) x flag combinations x stdout/-o x file/stdin x several sources; failing inputs',
                    'sampled flag combinations, all 16 covered overall')
     rep.assumptions += [A['A-EXT-CLICK'], A['A-EXT-ANTLR'], 'str.splitlines() returns pieces without line terminators (A-PY-STR)']
